@@ -696,13 +696,19 @@ class Emitter:
 
     def st_CompoundStmt(self, n, ind):
         p = '  ' * ind
-        return p + '{\n' + ''.join(self.st(c, ind + 1) for c in kids(n)) + p + '}\n'
+        self.hoist_depth = getattr(self, 'hoist_depth', 0) + 1
+        try:
+            return p + '{\n' + ''.join(self.st(c, ind + 1) for c in kids(n)) + p + '}\n'
+        finally:
+            self.hoist_depth -= 1
     def st_NullStmt(self, n, ind): return '  ' * ind + ';\n'
     def st_BreakStmt(self, n, ind): return '  ' * ind + 'break;\n'
     def st_ContinueStmt(self, n, ind): return '  ' * ind + 'continue;\n'
     def st_GotoStmt(self, n, ind):
         lab = self.ix.by_id.get(n['targetLabelDeclId'], {}).get('name') or self.labels.get(n['targetLabelDeclId'])
         if lab is None: raise Abort('goto target')
+        if lab in getattr(self, 'dispatch_labels', {}):
+            return '  ' * ind + f'{{ y_pc = {self.dispatch_labels[lab]}; goto y_dispatch_next; }}\n'
         return '  ' * ind + f'goto {lab};\n'
     def st_LabelStmt(self, n, ind):
         self.labels[n['declId']] = n['name']
@@ -742,24 +748,34 @@ class Emitter:
         if q.endswith('&'):
             t = self.ct(v['type'])
             pre, x = self.with_pre(lambda: self.addr(ks[0]), ind)
-            return pre + p + f"{self.cn(t)} {nm} = {x};\n"
+            return pre + self.declline(p, f"{self.cn(t)} {nm}", nm, x, self.cn(t))
         t = self.ct(v['type'])
         if v.get('constexpr') and ks:
             try:
                 val = self.ix.eval_const(ks[0])
-                return p + f"{self.decl(t, nm)} = {val};\n"
+                return self.declline(p, self.decl(t, nm), nm, str(val), self.cn(t))
             except Abort: pass
         if not ks:
-            if t.kind == 'rec': return p + f"{self.decl(t, nm)} = {self.default_init(t.name)};\n"
-            if t.kind == 'string': return p + f"{self.decl(t, nm)} = y_string_empty();\n"
-            if t.kind in ('pair', 'tuple', 'vector', 'sv'): return p + f"{self.decl(t, nm)} = {{0}};\n"
-            return p + f"{self.decl(t, nm)};\n"
+            if t.kind == 'rec': return self.declline(p, self.decl(t, nm), nm, self.default_init(t.name), self.cn(t))
+            if t.kind == 'string': return self.declline(p, self.decl(t, nm), nm, 'y_string_empty()', self.cn(t))
+            if t.kind in ('pair', 'tuple', 'vector', 'sv'): return self.declline(p, self.decl(t, nm), nm, '{0}', self.cn(t))
+            return self.declline(p, self.decl(t, nm), nm, None, self.cn(t))
         init = ks[0]; s = self.strip(init)
         def mk():
             if s.get('kind') == 'InitListExpr' and t.kind not in ('prim', 'ptr', 'enum'): return self.ex(s)
             return self.ex(init)
         pre, x = self.with_pre(mk, ind)
-        return pre + p + f"{self.decl(t, nm)} = {x};\n"
+        return pre + self.declline(p, self.decl(t, nm), nm, x, self.cn(t))
+
+    def declline(self, p, declstr, name, init, ctype):
+        """a local declaration; while hoisting (goto-dispatcher form) the declaration moves to function scope and the
+        initialiser becomes an assignment at the original position"""
+        if getattr(self, 'hoisting', None) is not None and self.hoist_depth == 0:
+            if declstr + ';' not in self.hoisting: self.hoisting.append(declstr + ';')
+            if init is None: return ''
+            if init.startswith('{'): init = f"({ctype}){init}"
+            return p + f"{name} = {init};\n"
+        return p + declstr + (f" = {init}" if init is not None else '') + ';\n'
 
     def uniq_local(self, v):
         nm = v['name']
@@ -780,9 +796,9 @@ class Emitter:
             self.bindings[b['id']] = f"({tv}->{f})" if isref else f"({tv}.{f})"
         if isref:
             pre, x = self.with_pre(lambda: self.addr(init), ind)
-            return pre + p + f"{self.cn(bt)}* {tv} = {x};\n"
+            return pre + self.declline(p, f"{self.cn(bt)}* {tv}", tv, x, self.cn(bt) + '*')
         pre, x = self.with_pre(lambda: self.ex(init), ind)
-        return pre + p + f"{self.cn(bt)} {tv} = {x};\n"
+        return pre + self.declline(p, f"{self.cn(bt)} {tv}", tv, x, self.cn(bt))
 
     def cond(self, e, ind):
         return self.with_pre(lambda: self.ex(e), ind)
@@ -923,7 +939,7 @@ class Emitter:
         return f"{rt} {cname}({', '.join(params) if params else 'void'})"
 
     def reset_fn(self, cname, n):
-        self.cur_name = cname; self.loopn = 0; self.retn = 0
+        self.cur_name = cname; self.loopn = 0; self.retn = 0; self.hoisting = None; self.hoist_depth = 0; self.dispatch_labels = {}
         self.bindings = getattr(self, 'bindings', {}); self.labels = {}
         self.local_names = getattr(self, 'local_names', {})
         self.lambda_vars = getattr(self, 'lambda_vars', {})
@@ -956,8 +972,46 @@ class Emitter:
         self.cur_ret = self.ret_type(n)
         cs = [c for c in n['inner'] if c.get('kind') == 'CompoundStmt']
         if not cs: raise Abort('no body: ' + cname)
+        if any(c.get('kind') == 'LabelStmt' for c in kids(cs[0])):
+            return sig, self.dispatcher_body(cs[0], cname)
+        self.hoisting = None; self.hoist_depth = 0
         body = self.st(cs[0], 0)
         return sig, body
+
+    def dispatcher_body(self, cs, cname):
+        """functions whose top-level labels are targets of (backward) gotos - the retry loops of put/get/remove/scan/... - are
+        printed as `for(;;) switch(y_pc)`: every top-level label becomes a case, every goto to it `y_pc = k; goto y_dispatch_next`.
+        Top-level locals are hoisted to function scope (their initialisers become assignments in place), so that values
+        survive dispatcher iterations exactly as they survive a goto. CBMC can attach a loop contract to this loop."""
+        flat = []
+        def flatten(st):
+            if st.get('kind') == 'LabelStmt':
+                flat.append(('label', st))
+                for c in kids(st): flatten(c)
+            else: flat.append(('stmt', st))
+        for c in kids(cs): flatten(c)
+        self.dispatch_labels = {}
+        k = 0
+        for kind, st in flat:
+            if kind == 'label':
+                k += 1; self.dispatch_labels[st['name']] = k; self.labels[st['declId']] = st['name']
+        self.hoisting = []; self.hoist_depth = 0
+        body = ''
+        for kind, st in flat:
+            if kind == 'label':
+                body += f"    case {self.dispatch_labels[st['name']]}: ;   /* {st['name']}: */\n"
+            else:
+                body += self.st(st, 3)
+        hoisted = ''.join('  ' + h + '\n' for h in self.hoisting)
+        self.hoisting = None
+        key = (self.cur_name, 'dispatch')
+        ann = self.loop_contracts.get(key, '')
+        if ann: self.used_loop_contracts.add(key)
+        ann = ''.join('  ' + l.strip() + '\n' for l in ann.strip().splitlines()) if ann else ''
+        end = '    return;\n' if self.cur_ret.strip() == 'void' else '    __CPROVER_assert(0, "control reaches the end of a non-void function"); __CPROVER_assume(0);\n'
+        out = '{\n' + hoisted + '  int y_pc = 0;\n  for (;;)\n' + ann + '  {\n    switch (y_pc)\n    {\n    case 0: ;\n' + body + '    }\n' + end + '    y_dispatch_next: ;\n  }\n}\n'
+        self.dispatch_labels = {}
+        return out
 
     def emit_lambda(self, fname, call, caps, owner):
         self.cur_name = fname; self.loopn = 0; self.retn = 0; self.labels = {}; self.pre = []
